@@ -1,7 +1,13 @@
 (* Property C07: configuration verification is exact and verified configurations never panic.
-   Statements only; proofs in Proofs/ConfigP.v and Proofs/NoPanic.v. *)
-From FV Require Import Model.Base Model.Predict Model.Component Model.Encoder Model.Config
-  Proofs.Lossless Proofs.ConfigP Proofs.NoPanic.
+   Statements only; proofs in Proofs/ConfigP.v, Proofs/NoPanic.v and Proofs/EncodeTotal.v.
+   C07_verify_exact: acceptance <-> documented ranges.  C07_verified_no_panic: the subframe encoder.
+   C07_verified_config_encodes / C07_verified_config_lossless: at STREAM level a verified configuration encodes every
+   valid input (1..8 channels, width 8..24, in-range samples, block size 1..32767, at most 2^31 blocks) with neither a
+   panic nor an error, and the independent strict decoder returns exactly the input.
+   PARTIAL: a panic inside the floating-point estimators themselves is outside the model (they are oracles; the
+   hypotheses block_hyps name what their answers must satisfy, and the checks measure it on every case). *)
+From FV Require Import Generated Model.Base Model.Rice Model.Predict Model.Component Model.Flac Model.Encoder Model.Config
+  Proofs.Lossless Proofs.ConfigP Proofs.NoPanic Proofs.EncodeFrameE2E Proofs.DecodeStream Proofs.EncodeTotal.
 Local Open Scope N_scope.
 
 (* accepted if and only if every field at every nesting level is in its documented range; the
@@ -23,3 +29,37 @@ Theorem C07_verified_no_panic :
     exists sf, encode_subframe ent qlpc cfg fi var samples bps = Ok sf.
 Proof. exact encode_subframe_no_panic. Qed.
 Print Assumptions C07_verified_no_panic.
+
+(* stream level: no panic, no error *)
+Theorem C07_verified_config_encodes :
+  forall (ent : N -> N -> N -> N) (qlpc : N -> N -> qparams) (md5 : list N -> list N)
+         experimental cfg rate channels bps bs samples (total : nat),
+    verify experimental cfg = true -> In bps [8; 12; 16; 20; 24] -> rate < 2 ^ 32 -> 1 <= channels <= 8 ->
+    1 <= bs <= c_MAX_BLOCK_SIZE ->
+    length samples = (total * N.to_nat channels)%nat -> N.of_nat total < 2 ^ 36 ->
+    N.of_nat (length (chunks (N.to_nat (bs * channels)) samples)) <= 2 ^ 31 ->
+    samples_ok bps samples = true ->
+    length (md5 (md5_input bps samples)) = 16%nat -> Forall (fun x => x < 256) (md5 (md5_input bps samples)) ->
+    (forall j b, nth_error (chunks (N.to_nat (bs * channels)) samples) j = Some b ->
+                 block_hyps qlpc cfg (N.of_nat j) channels bps b (length b / N.to_nat channels)) ->
+    exists bytes, encode_stream_bytes ent qlpc md5 cfg rate channels bps bs samples = Ok bytes.
+Proof. exact encode_stream_bytes_total. Qed.
+Print Assumptions C07_verified_config_encodes.
+
+(* ... and losslessly: the independent strict decoder returns the STREAMINFO and exactly the input *)
+Theorem C07_verified_config_lossless :
+  forall (ent : N -> N -> N -> N) (qlpc : N -> N -> qparams) (md5 : list N -> list N)
+         experimental cfg rate channels bps bs samples (total : nat),
+    verify experimental cfg = true -> In bps [8; 12; 16; 20; 24] -> 1 <= rate < 2 ^ 20 -> 1 <= channels <= 8 ->
+    16 <= bs <= c_MAX_BLOCK_SIZE ->
+    length samples = (total * N.to_nat channels)%nat -> N.of_nat total < 2 ^ 36 ->
+    N.of_nat (length (chunks (N.to_nat (bs * channels)) samples)) <= 2 ^ 31 ->
+    samples_ok bps samples = true ->
+    length (md5 (md5_input bps samples)) = 16%nat -> Forall (fun x => x < 256) (md5 (md5_input bps samples)) ->
+    (forall j b, nth_error (chunks (N.to_nat (bs * channels)) samples) j = Some b ->
+                 block_hyps qlpc cfg (N.of_nat j) channels bps b (length b / N.to_nat channels)) ->
+    exists bytes minf maxf,
+      encode_stream_bytes ent qlpc md5 cfg rate channels bps bs samples = Ok bytes /\
+      decode_stream bytes = Some (mkSinfo bs bs minf maxf rate channels bps (N.of_nat total) (md5 (md5_input bps samples)), samples).
+Proof. exact verified_config_lossless. Qed.
+Print Assumptions C07_verified_config_lossless.
